@@ -80,6 +80,28 @@ CHECKS = {
          'original image; a loaded file must be consistent by the format model and decode to its image.',
          'No checksum exists, so a field change that yields another well-formed file is a different program, not a violation; a v3 decompression bomb is not enumerated.',
          'DESIGN.md section 3 C10'),
+ 'C02': ('exploration',
+         'exhaustive enumeration of primitive-statement sequences x width x version vs a denotational assembler model with a behavioural wflip chain walker',
+         'All sequences of up to 3 statements over 27 shapes (ops over literals, backward/forward labels, $, constants, label+-k*w; '
+         'seven wflip forms forcing shared / unshared chains; pad 1/2/4; six segment placements; four reserves), depth 4 over a '
+         '12-shape core and depth 5 over a 6-shape core (all of depth 4 in thorough), at w=8/16/32/64 and fjm versions: if the '
+         'layout is possible the program must assemble and every statement word, label, reserved range and segment must match '
+         'the two-pass denotation, and every wflip chain is executed out of the image (flips exactly the set bits, once each, '
+         'popcount ops, ends at the return address, auxiliary ops outside user statements / reserved space); impossible '
+         'layouts must be rejected with a FlipJumpException.',
+         'Trusts R3 (checks/C02.py denote) and R5. Layouts whose only problem may be the implementation-chosen wflip area are accepted either way.',
+         'DESIGN.md section 3 C02'),
+ 'C12': ('exploration',
+         'exhaustive enumeration of expression trees rendered with minimal parentheses, of literal notations and of resolution-stage partitions vs a reference evaluator',
+         'Every ordered pair of the 19 binary operators in both nestings x operand triples, every unary x binary / unary x unary / '
+         '?: x operator combination in every position, non-associative comparison chains (must be rejected), 1500 literal forms '
+         '(decimal/hex/binary, every printable char, every escape, all 256 \\xHH in both cases, strings up to 3 chars), and every '
+         'pair tree x every partition of its three leaves into literal / constant / macro parameter / label / rep iterator '
+         '(value must not depend on the resolution stage); each value is observed completely (320 bits + sign) through '
+         'assembled op words and compared with Python-int evaluation.',
+         'R5 holds an independent transcription of the pinned precedence table (the repository documents it only in the grammar). '
+         'Expressions with an undefined sub-expression or more than 300 bits are skipped (counted).',
+         'DESIGN.md section 3 C12'),
 }
 
 NOT_YET = {
